@@ -56,7 +56,7 @@ for kd in sorted(glob.glob(os.path.join(wt, "out", "*"))):
     res["checks"] = {}
     if good:
         for c in checks:
-            for tier in ("quick", "thorough"):
+            for tier in os.environ.get("SEED_TIERS", "quick,thorough").split(","):
                 t0 = time.time()
                 r = sh("%s/check %s --tier %s" % (V, c, tier), cwd=V, env=dict(os.environ, VERIF_REPO=wt))
                 verdict = {0: "MISSED", 1: "caught", 2: "inconclusive"}.get(r.returncode, "rc%d" % r.returncode)
